@@ -34,7 +34,8 @@ class TLCResult:
 
     def summary(self):
         return dict(ok=self.ok, violated=self.violated, error=self.error, generated=self.generated,
-                    distinct=self.distinct, depth=self.depth, cases=len(self.cases), wall=round(self.wall, 2))
+                    distinct=self.distinct, depth=self.depth, cases=getattr(self, "ncases", len(self.cases)),
+                    wall=round(self.wall, 2))
 
 
 def scratch_root():
@@ -43,7 +44,7 @@ def scratch_root():
 
 def run_tlc(module, cfg, workers=8, timeout=900, simulate=None, depth=None, seed=None,
             extra_files=None, coverage=False, heap_gb=None, constants=None, keep_cases=True,
-            case_sink=None, dfs=False, cfg_text=None):
+            case_sink=None, dfs=False, cfg_text=None, case_file=None):
     """Run TLC.  `cfg` is a file name in spec/ (or None with cfg_text given).
     `constants`: dict name -> TLA+ expression text, substituted for lines `CONSTANT name = ...`
     placeholders of the form `name = @name@` in the cfg.  `case_sink`: callable(json_value) to
@@ -97,16 +98,26 @@ def run_tlc(module, cfg, workers=8, timeout=900, simulate=None, depth=None, seed
         res.wall = time.time() - t0
         tail = []
         errs = []
+        cf = open(case_file, "w") if case_file else None
+        res.ncases = 0
         in_err = False
         with open(out_path, errors="replace") as fh:
             for line in fh:
                 line = line.rstrip("\n")
                 if line.startswith('"{') or line.startswith('"['):
+                    if cf is not None:
+                        try:
+                            cf.write(json.loads(line) + "\n")
+                            res.ncases += 1
+                        except Exception:
+                            res.notes.append(line)
+                        continue
                     try:
                         v = json.loads(json.loads(line))
                     except Exception:
                         res.notes.append(line)
                         continue
+                    res.ncases += 1
                     if case_sink is not None:
                         case_sink(v)
                     elif keep_cases:
@@ -145,6 +156,8 @@ def run_tlc(module, cfg, workers=8, timeout=900, simulate=None, depth=None, seed
                     m = re.match(r"^<(\w+) line .*>: (\d+):(\d+)$", line.strip())
                     if m and int(m.group(3)) == 0 and m.group(1) not in ("Init",):
                         res.coverage_zero.append(m.group(1))
+        if cf is not None:
+            cf.close()
         if errs and res.error is None and not res.ok:
             res.error = "\n".join(errs[:12])
         if rc not in (0,) and not res.ok and res.error is None and res.violated is None:
